@@ -110,7 +110,7 @@ func failureProblems(res *run.Result, exp *ref.Result, f *ref.Task, failProc str
 func c09(args []string) {
 	c := chk.New("C09", "fault_enumeration", args)
 	c.Build(false)
-	c.Rule("generated graphs x every chosen task as the failing one x failure kind {exit non-zero before/mid/after writing, killed by SIGKILL / SIGSEGV, the task's shell killed by SIGKILL / SIGTERM after writing, declared output not produced, output written under another name; Go-function variants; task cannot be formed: empty parameter value, missing tag, invalid output path (space, colon, empty)} while sibling tasks are running; oracle = exit status != 0, no completion report, no final path of the failing task exists, no start event of any transitive dependant; plus output paths that cannot be finalized: an absolute output area on another file system (symlink to /dev/shm), where the commands succeed but the rename out of the temp directory fails - the program must exit non-zero, must not report completion, and no downstream task may run; twelve tasks failing at the same moment with long error reports (each of them is judged); Go-function tasks also fail by panicking. distinct_nontrivial = distinct (graph shape, failing task, failure kind) in which the failing command really ran (or, for unformable tasks, the workflow was started) and >= 1 sibling task executed")
+	c.Rule("generated graphs x every chosen task as the failing one x failure kind {exit non-zero before/mid/after writing, killed by SIGKILL / SIGSEGV, the task's shell killed by SIGKILL / SIGTERM after writing, declared output not produced, output written under another name; Go-function variants; task cannot be formed: empty parameter value, missing tag, invalid output path (space, colon, empty)} while sibling tasks are running; oracle = exit status != 0, no completion report, no final path of the failing task exists, no start event of any transitive dependant; plus output paths that cannot be finalized: an absolute output area on another file system (symlink to /dev/shm), where the commands succeed but the rename out of the temp directory fails - the program must exit non-zero, must not report completion, and no downstream task may run; twelve tasks failing at the same moment with long error reports (each of them is judged); Go-function tasks also fail by panicking; a command line that is a list whose middle element fails after the outputs were written; a producer with only streamed outputs failing 0.5 s after it closed its streams. distinct_nontrivial = distinct (graph shape, failing task, failure kind) in which the failing command really ran (or, for unformable tasks, the workflow was started) and >= 1 sibling task executed")
 	c.Assume("siblings that were already running may finalize their own outputs (os.Exit does not wait) - legal", "orphaned sibling commands are killed by the runner after the workflow process has exited")
 	rng := c.Rand("c09")
 	type job struct {
@@ -151,6 +151,15 @@ func c09(args []string) {
 			bh := vproto.Behaviours{f.Key: {"fail": mode, "sleep": "25"}}
 			cfg := Cfg{Buf: b, Procs: []int{1, 2, 4}[rng.Intn(3)], Sched: fmt.Sprintf("%d,300,600", rng.Intn(1<<30))}
 			jobs = append(jobs, &job{s: s, exp: exp, f: f, mode: mode, bh: bh, cfg: cfg})
+		}
+		// the command line is a list whose middle element fails after the outputs were written: "<command> && false && echo ok"
+		for _, p := range s.Procs {
+			if p.Kind == spec.KCmd && len(exp.ByProc[p.Name]) > 0 && len(exp.ByProc[p.Name][0].Outs) > 0 && (g+len(p.Name))%2 == 0 {
+				s2 := s.Clone()
+				s2.Proc(p.Name).Cmd += " && false && echo not-reached"
+				jobs = append(jobs, &job{s: s2, exp: exp, mode: "list-element-fails", cfg: Cfg{Buf: b, Procs: []int{1, 2, 4}[rng.Intn(3)], Sched: fmt.Sprintf("%d,300,600", rng.Intn(1<<30))}, fp: p.Name, idx: -1})
+				break
+			}
 		}
 		// tasks that cannot be formed
 		var cmdProcs []*spec.Proc
@@ -313,6 +322,34 @@ func c09(args []string) {
 			jobs = append(jobs, &job{s: s, exp: exp, f: f, mode: mode, bh: bh, cfg: Cfg{Buf: []int{1, 128}[k%2], Procs: 4, NoHooks: k%4 < 2}, idx: -1})
 		}
 	}
+	// a producer whose outputs are all streamed fails well after it closed its streams (it verifies something, waits
+	// for a child, ...), when its consumer is already done
+	{
+		s := &spec.Spec{Name: "streamonlylate", MaxTasks: 6, Sources: map[string]string{"m0.txt": "m0\n", "m1.txt": "m1\n"}}
+		in := []spec.PortDecl{{Name: "in"}}
+		s.Procs = append(s.Procs, &spec.Proc{Name: "src", Kind: spec.KFileSource, Files: []string{"m0.txt", "m1.txt"}},
+			&spec.Proc{Name: "PROD", Kind: spec.KCmd, Cmd: spec.BuildCmd("PROD", in, []spec.PortDecl{{Name: "out", Stream: true}}, nil, nil, nil)},
+			&spec.Proc{Name: "CONS", Kind: spec.KCmd, Cmd: spec.BuildCmd("CONS", in, []spec.PortDecl{{Name: "out"}}, nil, nil, nil)},
+			&spec.Proc{Name: "D", Kind: spec.KCmd, Cmd: spec.BuildCmd("D", in, []spec.PortDecl{{Name: "out"}}, nil, nil, nil)})
+		s.Conns = append(s.Conns, &spec.Conn{From: "src.out", To: "PROD.in"}, &spec.Conn{From: "PROD.out", To: "CONS.in"}, &spec.Conn{From: "CONS.out", To: "D.in"})
+		exp := evalRef(s, nil)
+		if exp.Err != "" {
+			c.Broken("reference cannot evaluate the stream-only shape: " + exp.Err)
+		}
+		for k := 0; k < c.Pick(4, 12); k++ {
+			bh := vproto.Behaviours{}
+			var f *ref.Task
+			if k%2 == 0 {
+				f = exp.ByProc["PROD"][(k/2)%2]
+				bh[f.Key] = map[string]string{"fail": "exit-after-write", "post": "500"}
+				jobs = append(jobs, &job{s: s, exp: exp, f: f, mode: "exit-after-write", bh: bh, cfg: Cfg{Buf: []int{1, 128}[(k/2)%2], Procs: 4, NoHooks: k%4 == 0}, idx: -1})
+			} else {
+				// every task of the producer fails late
+				bh["PROD"] = map[string]string{"fail": "exit-after-write", "post": "500"}
+				jobs = append(jobs, &job{s: s, exp: exp, fp: "PROD", mode: "exit-after-write", bh: bh, cfg: Cfg{Buf: []int{1, 128}[(k/2)%2], Procs: 4, NoHooks: k%4 == 1}, idx: -1})
+			}
+		}
+	}
 	run.Parallel(len(jobs), func(i int) {
 		j := jobs[i]
 		root := c.CaseDir()
@@ -332,7 +369,7 @@ func c09(args []string) {
 			c.Inconclusive("the failing task never started")
 			return
 		}
-		ps := failureProblems(res, j.exp, j.f, j.fp, j.idx, j.mode == "path-name-too-long" || j.mode == "path-through-regular-file" || j.s.Name == "manyfail")
+		ps := failureProblems(res, j.exp, j.f, j.fp, j.idx, j.mode == "path-name-too-long" || j.mode == "path-through-regular-file" || j.mode == "list-element-fails" || j.s.Name == "manyfail" || j.s.Name == "streamonlylate")
 		if len(ps) > 0 {
 			who := j.fp
 			if j.f != nil {
